@@ -299,6 +299,10 @@ func c05Msg(r *ev.Run, n *wire.N, what string) {
 		r.Add("skipped_unsupported_match_field", 1)
 		return
 	}
+	if corpus.HasUnequalMask(n) {
+		r.Add("skipped_mask_width_differs_from_value_width", 1) // not a two-way value: the wire splits a masked payload in the middle
+		return
+	}
 	if inner := innermost(n); !c05Parseable[inner.K] && inner != n {
 		r.Add("skipped_bundle_of_kind_parse_does_not_decode", 1)
 		return
